@@ -22,10 +22,12 @@ pub struct Knobs {
     pub inject_pct: u64,           // percent of cases with control requests sent between polls
     pub drop_pct: u64,             // percent of cases that drop all control handles at some wait
     pub reboot_scn_pct: u64,       // percent of cases directed at a long wait-for-reboot (install succeeds, reboot refused several times)
+    pub twin_pct: u64,             // percent of cases / documents in which all apps share a version / are offered the same manifest version
+    pub reboot_record_pct: u64,    // percent of cases started on the recorded target version, with the first clock readings shaped (consistent / inconsistent)
 }
 pub fn default_knobs() -> Knobs {
     Knobs { cup: None, oneshot_pct: 15, forged_pct: 10, retry_after_pct: 20, update_pct: 50, faults_pct: 10,
-            weird_storage_pct: 10, clock_jump_pct: 10, bad_url_pct: 3, max_checks: 4, reboot_pct: 50, inject_pct: 25, drop_pct: 5, reboot_scn_pct: 5 }
+            weird_storage_pct: 10, clock_jump_pct: 10, bad_url_pct: 3, max_checks: 4, reboot_pct: 50, inject_pct: 25, drop_pct: 5, reboot_scn_pct: 5, twin_pct: 10, reboot_record_pct: 2 }
 }
 
 pub fn knobs_for(prop: &str) -> Knobs {
@@ -37,8 +39,9 @@ pub fn knobs_for(prop: &str) -> Knobs {
         "C07" => { k.retry_after_pct = 80; k.update_pct = 20; }
         "C08" => { k.faults_pct = 0; k.weird_storage_pct = 0; k.reboot_scn_pct = 15; }
         "C09" => { k.update_pct = 20; k.faults_pct = 0; }
-        "C04" | "C10" => { k.update_pct = 85; }
-        "C18" => { k.update_pct = 90; k.reboot_pct = 70; k.reboot_scn_pct = 20; }
+        "C04" => { k.update_pct = 85; }
+        "C10" => { k.update_pct = 85; k.twin_pct = 40; }
+        "C18" => { k.update_pct = 90; k.reboot_pct = 70; k.reboot_scn_pct = 20; k.clock_jump_pct = 30; k.reboot_record_pct = 35; }
         "C05" | "C12" => { k.update_pct = 60; k.reboot_pct = 70; k.reboot_scn_pct = 35; }
         "C11" => { k.update_pct = 60; k.reboot_pct = 70; k.inject_pct = 90; k.drop_pct = 15; k.oneshot_pct = 0; k.max_checks = 5; k.reboot_scn_pct = 35; }
         _ => {}
@@ -79,10 +82,14 @@ pub fn rand_doc(rng: &mut Rng, app_ids: &[String], k: &Knobs) -> Value {
     if rng.chance(1, 6) { ids.insert(rng.below(ids.len() as u64 + 1) as usize, "unknown-app".into()); }
     if rng.chance(1, 12) && !ids.is_empty() { let d = ids[0].clone(); ids.push(d); }
     let offer = rng.below(100) < k.update_pct;
+    // twins: every offered app gets the same manifest version (their events can then be identical)
+    let twin: Option<Value> = if rng.below(100) < k.twin_pct { Some(if rng.chance(3, 4) { hx(&format!("{}.{}.0.0", 1 + rng.below(9), rng.below(20))) } else { Value::Null }) } else { None };
     let apps: Vec<Value> = ids.iter().map(|id| {
         let uc = if rng.chance(1, 8) { Value::Null } else {
-            let status = if offer && rng.chance(2, 3) { "ok" } else { *rng.pick(&["noupdate", "restricted", "error-unknownApplication", "OK"]) };
-            json!({"status": status, "manifest": if status == "ok" && rng.chance(3, 4) { hx(&format!("{}.{}.0.0", 1 + rng.below(9), rng.below(20))) } else { Value::Null }})
+            let status = if offer && (twin.is_some() || rng.chance(2, 3)) { "ok" } else { *rng.pick(&["noupdate", "restricted", "error-unknownApplication", "OK"]) };
+            let man = match &twin { Some(m) if status == "ok" => m.clone(),
+                                    _ => if status == "ok" && rng.chance(3, 4) { hx(&format!("{}.{}.0.0", 1 + rng.below(9), rng.below(20))) } else { Value::Null } };
+            json!({"status": status, "manifest": man})
         };
         json!({"id": hx(id), "cohort": {"id": ohx(&opt_co(rng)), "hint": ohx(&opt_co(rng)), "name": ohx(&opt_co(rng))}, "uc": uc})
     }).collect();
@@ -146,6 +153,7 @@ pub fn gen_sm(rng: &mut Rng, k: &Knobs) -> Value {
         apps.push(a);
         app_ids.push(id);
     }
+    if rng.below(100) < k.twin_pct { let v0 = apps[0]["ver"].clone(); for a in apps.iter_mut() { a["ver"] = v0.clone(); } }
     if rng.chance(1, 20) {
         // invalid app set: one app, anywhere in the set, has version 0 or (not the first, whose id is a header value) an empty id
         let i = rng.below(napps as u64) as usize;
@@ -163,7 +171,9 @@ pub fn gen_sm(rng: &mut Rng, k: &Knobs) -> Value {
     let (mut cw, mut cm) = (base_w, base_m);
     for _ in 0..(20 + rng.below(80)) {
         let step = match rng.below(6) { 0 => 0, 1 => 1, 2 => 999, 3 => 1_000_000, 4 => 3_000_000_000, _ => rng.below(100_000_000_000) as i128 };
-        cm += step;
+        // the monotonic clock normally only moves forward; under clock jumps it may also be read going backwards (a TimeSource may do that)
+        cm += if rng.below(100) < k.clock_jump_pct && rng.chance(1, 4) { -(rng.below(50_000_000_000) as i128) } else { step };
+        if cm < 0 { cm = 0; }
         cw += if rng.below(100) < k.clock_jump_pct { rng.range(-100_000_000_000, 100_000_000_000) as i128 } else { step };
         clock.push(json!([cw.to_string(), cm.to_string()]));
     }
@@ -200,10 +210,35 @@ pub fn gen_sm(rng: &mut Rng, k: &Knobs) -> Value {
             let _ = i;
         }
     }
+    if rng.below(100) < k.reboot_record_pct && clock.len() >= 2 {
+        // Directed: the machine starts on the version a finished install recorded.  The first two clock readings (taken at
+        // start-up and when the waited-for-reboot duration is computed) are consistent or inconsistent in one of the ways
+        // the property names; later readings (retries of the report) are left as generated.
+        storage.retain(|kv| { let k = strv(&kv[0]); k != "update_finish_time" && k != "target_version" });
+        let r0w: i128 = clock[0][0].as_str().unwrap().parse().unwrap();
+        let r0m: i128 = clock[0][1].as_str().unwrap().parse().unwrap();
+        let finish_us = r0w / 1000 - rng.below(20_000_000) as i128;
+        storage.push(json!([hx("update_finish_time"), {"int": finish_us.to_string()}]));
+        storage.push(json!([hx("target_version"), {"str": hx(&os_version)}]));
+        let (w1, m1) = match rng.below(6) {
+            0 => (r0w + 5_000_000_000, r0m + 3_000_000_000),          // consistent
+            1 => (finish_us * 1000 - 1_000_000_000, r0m + 1_000_000_000), // the wall clock is before the recorded finish time
+            2 => (r0w + 5_000_000_000, (r0m - 1_000_000_000).max(0)),     // the monotonic clock went backwards
+            3 => (finish_us * 1000 + 1_000_000, r0m + 60_000_000_000),    // less wall time since the finish than monotonic time since start
+            4 => (r0w, r0m),                                             // no time at all
+            _ => (r0w + rng.below(100_000_000_000) as i128, r0m + rng.below(100_000_000_000) as i128),
+        };
+        clock[1] = json!([w1.to_string(), m1.to_string()]);
+    }
     let faults: Vec<u64> = if rng.below(100) < k.faults_pct { (0..1 + rng.below(4)).map(|_| rng.below(40)).collect() } else { vec![] };
     // policy
     let next_time: Vec<Value> = (0..rng.below(8)).map(|_| json!({"time": rand_pct(rng, cw, cm),
-        "min": if rng.chance(1, 3) { json!((10_000_000_000u64 + rng.below(100_000_000_000)).to_string()) } else { Value::Null }})).collect();
+        "min": if rng.chance(1, 3) {
+                   if rng.below(100) < k.weird_storage_pct / 3 {
+                       // "never on your own": minimum waits at the limits of Duration
+                       json!(*rng.pick(&["18446744073709551615999999999", "18446744073709551615000000000", "9223372036854775807000000000", "0", "1"]))
+                   } else { json!((10_000_000_000u64 + rng.below(100_000_000_000)).to_string()) }
+               } else { Value::Null }})).collect();
     let allowed: Vec<Value> = (0..rng.below(6)).map(|_| {
         let d = match rng.below(8) { 0 => "toosoon", 1 => "throttled", 2 => "denied", 3 => "okdeferred", _ => "ok" };
         json!({"d": d, "params": rand_params_json(rng)})
